@@ -15,35 +15,81 @@ compiling.  Nothing is approximated silently.  A target that cannot be located a
 
 THE SUBSET.
   items       `fn` / `const fn` (free, inherent `impl T`, `impl Trait for T`, trait default methods read at a given
-              `Self`), non-generic, by-value / `&self` receivers; `const` / `static` items with integer, bool or
+              `Self`), without type parameters of their own, by-value / `&self` receivers; `&mut self` receivers of
+              functions without a result (see MUTABLE RECEIVERS); functions of generic impls read at a concrete
+              instantiation (see GENERIC IMPLS); `const` / `static` items with integer, bool or
               struct-literal initialisers (evaluated at translation time, `as` wraps, result checked against the
               declared type); a `const` whose initialiser calls a `const fn` (`NaiveDate::BEFORE_MIN`) is read as a
               function without parameters (`def …BEFORE_MIN : Res Int`; compile-time evaluation has the run-time
               semantics, a panic there would be a compile error); `struct T(int)` and `struct T { one field }` are
               represented by that field; `struct T { f: A, g: B, … }` by a generated Lean `structure` whose fields
               have the Lean types of A, B, … (`Int` for integers, newtypes and field-less enums, the generated
-              structure for a nested struct: `NaiveDateTime { date: NaiveDate, time: NaiveTime }`); field-less `enum`s by
+              structure for a nested struct: `NaiveDateTime { date: NaiveDate, time: NaiveTime }`); a unit struct
+              (`struct Utc;`) by Lean's `Unit`, its value `Utc` by `()`; field-less `enum`s by
               their discriminant (an `Int`); `NonZeroI32` & co. by the underlying integer (`get`, `new_unchecked`
               are the identity); references are erased (all values are `Copy`).
   statements  `let` (with tuple / newtype patterns, shadowing), `let mut` with `=`, `+= -= *= /= %= <<= >>= &= |= ^=`
               on local variables (re-binding; code after an `if` that assigns is duplicated into both branches), local
-              `const`, expression statements, `return`, `if` / `if … else` / `if let Some(x) = …`, `match` on
+              `const`, a plain `use path::Name;` whose `Name` is nothing of the translated files (an external trait:
+              it cannot change what a path of the body refers to; any other `use` is refused), expression
+              statements, `return`, `if` / `if … else` / `if let Some(x) = …`, `match` on
               integers (literals, `a..=b` ranges, named constants, `_`, a binding), on bools, on field-less enums and
               on `Option` (`Some(p)` / `None` / `_`); blocks, `unsafe { }` blocks.
   expressions integer literals (any radix, `_`, suffixes; unsuffixed literals typed by unification, default i32),
-              `true/false`, variables, constants, `iN::MAX/MIN`, `+ - * / % << >> & | ^ !` and unary `-`, comparisons,
+              `true/false`, variables, constants, `iN::MAX/MIN`, module-level `const NAME: [intN; n] = [e, …];` arrays
+              of integer constant expressions (written out as a list literal where used, elements checked against
+              the element type), `opt.map(|p| e)` / `opt.and_then(|p| e)` with a one-parameter closure written in
+              place and without `return` / `?` in it (read as the `match` that defines them: `Some(p) => Some(e)` resp.
+              `Some(p) => e`, `None => None`; a closure anywhere else is refused), `+ - * / % << >> & | ^ !` and unary `-`, comparisons,
               `&& || !`, `as` between integer types / from bool / from a field-less enum, `iN::from`, tuples, array
               literals and indexing of integer arrays, indexing of the tables tools/extract.py already translates
               (YEAR_TO_FLAGS, MDL_TO_OL, OL_TO_MDL, YEAR_DELTAS: read from Extracted/Tables.lean), struct literals
               (also with a base, `T { f: e, ..base }`: the fields not listed are read from `base`, which is
               evaluated after the listed fields), field access, calls of translated functions and methods, `Some/None`, `try_opt!(e)` and `e?` on Option,
-              `crate::expect(opt, msg)`, `.unwrap()`, `.unwrap_or(d)` on an Option of an integer-represented
+              `crate::expect(opt, msg)`, `.unwrap()`, `.expect("…")` (the method, with a string literal: as
+              `.unwrap()`), `.unwrap_or(d)` on an Option of an integer-represented
               type (`opt.getD d`; `d` is evaluated first, as in Rust), `.is_some()/.is_none()`, `checked_add/sub/mul`,
               `div_euclid/rem_euclid`, `abs`, `debug_assert!/assert!(…)`, `debug_assert_eq!/…_ne!`,
               `panic!/unreachable!`.
-  refused     everything else, in particular: generics, closures, loops, `&mut`, floats, chars / strings as values,
-              `Result`, slices, iterators, trait objects, struct patterns, match guards, wrapping_/overflowing_/
-              saturating_ methods, functions without a result.
+  refused     everything else, in particular: functions with type parameters of their own (`fn f<T>`), generic
+              enums (`LocalResult<T>`), closures, loops, `&mut` borrows and `&mut` parameters other than the receiver,
+              floats, chars / strings as values, `Result`, slices, iterators, trait objects, struct patterns, match
+              guards, wrapping_/overflowing_/saturating_ methods, functions without a result (other than
+              `&mut self` ones), turbofish paths.
+
+GENERIC IMPLS (read at a concrete instantiation; nothing is translated "for all Tz").
+  types       a generic struct `struct DateTime<Tz: TimeZone> { datetime: NaiveDateTime, offset: Tz::Offset }` is not
+              a type of the subset; each instantiation named by a target (`DateTime<Utc>`, `DateTime<FixedOffset>`) or
+              reached from one is a struct of its own — Lean structure `<module>.DateTime_Utc` — whose field types
+              are the declared ones with the parameters replaced.  Type arguments must be named types.  In the body of
+              an instantiated function `Tz` is the argument, `Self` / `DateTime<Tz>` the instantiated struct, and an
+              associated type `Tz::Offset` / `Self::Offset` is the right-hand side of the item `type Offset = …;` in
+              the (non-generic) `impl … for <the concrete type>` of the translated files; refused if there is none.
+  functions   `DateTime<Utc>::f` is the `f` of the impl `impl<…> DateTime<args>` whose header covers the
+              instantiation: a parameter of the impl matches any argument (consistently), a concrete argument
+              (`impl DateTime<Utc>`) only itself; inherent impls before trait impls (Rust's lookup order); more than
+              one covering impl with an `f` is refused.  Bounds and `where` clauses of the impl are not evaluated
+              (rustc has checked them for every call that exists; a target names the instantiation explicitly).  The
+              body is type-checked and translated afresh for each instantiation (`DateTime_Utc.timestamp`,
+              `DateTime_FixedOffset.timestamp` are two definitions).
+  calls       `Tz::f(…)`: the `f` of the concrete type.  `Trait::f(…)` (`TimeZone::from_offset(&self.offset)`): the
+              impl is chosen by `Self`, read off the first argument when `f` has a receiver and off the expected type
+              when `f` returns `Self`; the resolved function must belong to that trait.  `DateTime::f(…)` /
+              `DateTime { … }` without type arguments: the instantiation is the expected type (the declared result /
+              `let` / parameter type the expression flows into; the result is unified with that type afterwards, so a
+              wrong expectation is a refusal, never another reading).  A method call on a value of a concrete type
+              finds inherent methods, then methods of `impl Trait for T`, then default methods of the traits `T`
+              implements (read at `Self = T`).  Because a value whose declared type is a parameter (`Tz`,
+              `Tz::Offset`, `Self` in a default method) only has the methods of its trait bounds in Rust, while at
+              the concrete type an inherent method of the same name would win, a call on a type that is the image of
+              a parameter of the enclosing function is refused when the name is both an inherent and a trait method.
+  impls with a generic TRAIT only (`impl Mul<i32> for TimeDelta`): ordinary impls, filed under the trait's name; two
+              impls of one trait for one type (`Mul<i32>`, `Mul<i64>`) make the name ambiguous, which is refused.
+
+MUTABLE RECEIVERS.  `fn f(&mut self, args)` without a result is read as the function from the OLD value of `*self`
+(and the arguments) to the NEW value of `*self`: `self` is a re-bound local, written only by `*self = e;` (an
+assignment to a field of `self`, a `&mut` re-borrow or a call of another `&mut self` function is refused), the result
+is its final value.  (`impl AddAssign for TimeDelta`: `a += b` is `a := add_assign a b`.)
 
 SEMANTICS (the build under test: overflow checks and debug assertions ON, 64-bit `usize`).
   values      every integer is an unbounded Lean `Int` lying in the range of its Rust type; the generated definitions
@@ -79,9 +125,12 @@ SEMANTICS (the build under test: overflow checks and debug assertions ON, 64-bit
   bools       conditions are Lean `Prop`s (`a < b ∧ c`); a bool that is stored, passed or returned is `decide (…)`.
 
 NAMES.  `<module>.<Type>.<fn>` for inherent and free functions, `<module>.<Type>.<Trait>.<fn>` for a method of
-`impl Trait for Type` and for a trait default method read at `Self = Type` (module = the trait's file).  When a local
-variable of the function is called like the module of a callee (`weekday`), the callee is written with its full name
-`Chrono.Gen.<module>.…` (Lean would otherwise read `weekday.Weekday.f` as a projection of the local).
+`impl Trait for Type` and for a trait default method read at `Self = Type` (module = the trait's file).  An
+instantiated generic struct `DateTime<Utc>` is called `DateTime_Utc`.  A function named like a field of its own
+multi-field struct gets the suffix `_fn` (`NaiveDateTime.date_fn`; `NaiveDateTime.date` is the projection of the
+generated structure).  When a local variable of the function is called like the module of a callee or of a
+structure (`weekday`, `datetime`), that name is written in full, `Chrono.Gen.<module>.…` (Lean would otherwise
+read `weekday.Weekday.f` as a projection of the local).
 
 NORMAL FORM of the output: `do`-free, one `def` per function, `let` for Rust `let`s (always with the Lean type),
 `Res.bind (…) fun x =>` for each panicking step (bound to the Rust variable's name when it initialises or updates
@@ -93,6 +142,24 @@ import re
 
 class Refuse(Exception):
     """the item is outside the translated subset (reported, never approximated)"""
+
+
+class NotFound(Refuse):
+    """a function that is not defined in the translated files at all (a stale target)"""
+
+
+def qualify(text, used, mods):
+    """write `<module>.X` as `Chrono.Gen.<module>.X` for every module that is also the name of a local variable of
+    the function (Lean would read `datetime.DateTime_Utc` as a projection of the local `datetime`)"""
+    hit = [m for m in mods if m in used]
+    if not hit:
+        return text
+    return re.sub(r"(?<![\w.])(" + "|".join(sorted(hit)) + r")\.(?=[A-Za-z_])", r"Chrono.Gen.\1.", text)
+
+
+def lean_ident(name):
+    """`DateTime<Utc>` -> `DateTime_Utc` (the Lean name of an instantiated generic struct)"""
+    return name.replace("<", "_").replace(", ", "_").replace(">", "")
 
 
 # ------------------------------------------------------------------------------------------------ lexer
@@ -243,8 +310,10 @@ ASSIGN_OPS = {"=", "+=", "-=", "*=", "/=", "%=", "<<=", ">>=", "&=", "|=", "^="}
 
 
 class Parser:
-    def __init__(self, toks, i=0):
+    def __init__(self, toks, i=0, tparams=()):
         self.t, self.i = toks, i
+        self.tparams = set(tparams)      # names of the type parameters in scope (generic impl / generic struct)
+        self.half = None                 # index of a `>>` token whose first `>` has been consumed
 
     # -- token helpers
     def peek(self, o=0):
@@ -354,8 +423,12 @@ class Parser:
                         args.append(self.parse_type())
                     if not self.eat(","):
                         break
-                if self.at(">>"):      # split `>>`
-                    self.t[self.i] = Tok("p", ">", self.peek().pos)
+                if self.at(">>"):      # split `>>` (the token list is shared between readings: not modified)
+                    if self.half == self.i:
+                        self.half = None
+                        self.i += 1
+                    else:
+                        self.half = self.i
                 else:
                     self.expect(">")
                 break
@@ -370,10 +443,17 @@ class Parser:
             return ("bool",)
         if name == "Option" and len(args) == 1:
             return ("opt", args[0])
+        if name == "Self" and len(segs) == 1:
+            return ("self",)
+        if len(segs) == 1 and name in self.tparams and not args:
+            return ("tparam", name)
+        if len(segs) == 2 and not args and (segs[0] == "Self" or segs[0] in self.tparams):
+            # an associated type of the impl type / of a type parameter: `Self::Offset`, `Tz::Offset`
+            return ("assoc", ("self",) if segs[0] == "Self" else ("tparam", segs[0]), name)
         if name == "Self":
             return ("self",)
         if args:
-            return ("unk", "::".join(segs) + "<…>")
+            return ("gen", name, tuple(args), "::".join(segs) + "<…>")
         return ("adt", name)
 
     # -- patterns
@@ -572,6 +652,15 @@ class Parser:
                 self.expect(";")
                 stmts.append(N("lconst", name=name, dty=ty, e=e))
                 continue
+            if self.at("use"):
+                j = self.i
+                while not self.at(";"):
+                    if self.peek().k == "eof" or (self.peek().k == "p" and self.peek().v in "{}*") or self.at("as"):
+                        raise Refuse("`use` inside a function body (other than a plain `use path::Name;`)")
+                    self.i += 1
+                stmts.append(N("use", name=self.t[self.i - 1].v))
+                self.i += 1
+                continue
             for kw in ("fn", "struct", "enum", "impl", "use", "static", "loop", "while", "for", "mod", "trait", "type"):
                 if self.at(kw):
                     raise Refuse(f"`{kw}` inside a function body")
@@ -693,7 +782,21 @@ class Parser:
         if self.at("true") or self.at("false"):
             self.i += 1
             return N("bool", v=(x.v == "true"))
-        for kw in ("loop", "while", "for", "break", "continue", "move", "async", "|", "||"):
+        if self.at("|"):
+            # a closure `|pattern, …| body` (only accepted as the argument of Option::map / and_then, see infer_mcall)
+            self.i += 1
+            ps = []
+            while not self.at("|"):
+                ps.append(self.parse_pat_atom())
+                if self.eat(":"):
+                    self.parse_type()          # an annotation restates what rustc has inferred
+                if not self.eat(","):
+                    break
+            self.expect("|")
+            if self.at("->"):
+                raise Refuse("closure with a declared result type")
+            return N("closure", params=ps, body=self.parse_expr())
+        for kw in ("loop", "while", "for", "break", "continue", "move", "async", "||"):
             if self.at(kw):
                 raise Refuse(f"`{kw}` (loops / closures are outside the subset)")
         if x.k == "id":
@@ -738,6 +841,9 @@ class FnItem:
         self.mod, self.owner, self.trait, self.name = mod, owner, trait, name
         self.toks, self.sig_i, self.generic, self.rel = toks, sig_i, generic, rel
         self.parsed = None
+        self.mut_self = False  # `&mut self` receiver (see parse)
+        self.tsubst = {}       # type parameter of the enclosing generic impl -> the concrete type it is read at
+        self.gimpl = None      # header of the enclosing generic impl (see Crate.impl_header)
 
     def rust_path(self):
         o = self.owner or ""
@@ -747,23 +853,29 @@ class FnItem:
             o = self.trait
         return (o + "::" if o else "") + self.name
 
-    def parse(self):
+    def parse_sig(self):
+        """the signature only (also of a bodiless trait method declaration) -> (params, has_self, return type)"""
+        return self.parse(sig_only=True)
+
+    def parse(self, sig_only=False):
         """-> (params [(pattern, type)], has_self, return type, body block)"""
         if self.parsed:
-            return self.parsed
-        p = Parser(self.toks, self.sig_i)
+            return self.parsed[:3] if sig_only else self.parsed
+        p = Parser(self.toks, self.sig_i, self.tsubst)
         p.expect("(")
-        params, has_self = [], False
+        params, has_self, mut_self = [], False, False
         while not p.at(")"):
             if p.at("#"):
                 raise Refuse("attribute on a parameter")
             if (p.at("self") or (p.at("&") and (p.at("self", 1) or (p.peek(1).k == "life" and p.at("self", 2))))
+                    or (p.at("&") and p.at("mut", 1) and p.at("self", 2))
+                    or (p.at("&") and p.peek(1).k == "life" and p.at("mut", 2) and p.at("self", 3))
                     or (p.at("mut") and p.at("self", 1))):
                 if p.eat("&"):
                     if p.peek().k == "life":
                         p.i += 1
-                    if p.at("mut"):
-                        raise Refuse("`&mut self` receiver")
+                    if p.eat("mut"):
+                        mut_self = True
                 if p.eat("mut"):
                     raise Refuse("`mut self` receiver")
                 p.expect("self")
@@ -782,12 +894,26 @@ class FnItem:
         ret = ("unit",)
         if p.eat("->"):
             ret = p.parse_type()
+        if sig_only:
+            if mut_self:
+                raise Refuse("`&mut self` receiver")
+            return (params, has_self, ret)
         if p.at("where"):
             raise Refuse("where clause")
         if not p.at("{"):
             raise Refuse("function without a body")
         body = p.parse_block()
         self.idents = {t.v for t in self.toks[self.sig_i:p.i] if t.k == "id"}
+        if mut_self:
+            # `fn f(&mut self, …)` without a result: read as the function from the old value of `*self` to the new
+            # one — `self` is a re-bound local (`*self = e;` is the only way it is written), the result is its
+            # final value
+            if ret != ("unit",):
+                raise Refuse("`&mut self` receiver in a function with a result")
+            stmts = list(body.stmts) + ([N("estmt", e=body.tail)] if body.tail is not None else [])
+            body = N("block", stmts=stmts, tail=N("path", segs=["self"]))
+            ret = ("self",)
+        self.mut_self = mut_self
         self.parsed = (params, has_self, ret, body)
         return self.parsed
 
@@ -815,13 +941,74 @@ class Crate:
         self.consts = {}    # (mod, owner|None, name) -> (type, expr node, rel)
         self.adts = {}      # name -> dict(kind=…, mod=…)
         self.files = {}
+        self.gadts = {}     # generic struct: name -> dict(tparams=[…], fields=[(name, type)], mod=…)
+        self.gfns = {}      # (base type name, trait|None, fn name) -> [FnItem] of impls with a generic header
+        self.assoc = {}     # (impl type, associated type name) -> type   (`type Offset = Utc;` in an impl)
+        self.impls = []     # (trait, type) of every non-generic `impl Trait for Type`
+        self.traits = set() # names of the traits declared in the translated files
+        self.decls = {}     # (trait, fn name) -> [FnItem] of the bodiless method declarations of a trait
 
     def scan_file(self, rel, mod, src):
         toks = lex(src)
         self.files[rel] = mod
         self.scan_items(Parser(toks), rel, mod, None, None, top=True)
 
-    def scan_items(self, p, rel, mod, owner, trait, top=False):
+    @staticmethod
+    def generic_params(p):
+        """at `<`: skips the generic parameter list and returns the names of its TYPE parameters (lifetimes and
+        const parameters are not type parameters; bounds are skipped: rustc has checked them)"""
+        j = p.i
+        p.skip_generics()
+        names, depth, paren, want = [], 0, 0, False
+        for x in p.t[j:p.i]:
+            if x.k == "p" and x.v in "([{":
+                paren += 1
+            elif x.k == "p" and x.v in ")]}":
+                paren -= 1
+            elif paren:
+                continue
+            elif x.k == "p" and x.v == "<":
+                depth += 1
+                want = depth == 1
+            elif x.k == "p" and x.v in (">", ">>"):
+                depth -= len(x.v)
+            elif x.k == "p" and x.v == "," and depth == 1:
+                want = True
+            elif want:
+                if x.k == "id" and x.v != "const":
+                    names.append(x.v)
+                want = False
+        return names
+
+    @staticmethod
+    def impl_header(toks, tparams):
+        """the header `[Trait for] Type` of an impl with generics in it -> dict(base, args, tname, targs, tparams)
+        or None when it is not of the form `Name<types…>` / `Name`"""
+        q = Parser(list(toks) + [Tok("eof", "", 0)], 0, tparams)
+
+        def named(t):
+            if t[0] == "adt":
+                return t[1], ()
+            if t[0] == "gen":
+                return t[1], t[2]
+            return None
+        try:
+            if q.at("!"):
+                return None
+            t1 = q.parse_type()
+            tr_ = None
+            if q.eat("for"):
+                tr_, t1 = t1, q.parse_type()
+            if not (q.peek().k == "eof" or q.at("where")):
+                return None
+        except Refuse:
+            return None
+        a, b = named(t1), (named(tr_) if tr_ is not None else (None, ()))
+        if a is None or b is None:
+            return None
+        return dict(base=a[0], args=a[1], tname=b[0], targs=b[1], tparams=list(tparams))
+
+    def scan_items(self, p, rel, mod, owner, trait, top=False, gimpl=None):
         while True:
             x = p.peek()
             if x.k == "eof":
@@ -858,6 +1045,7 @@ class Crate:
                     generic = True
                     p.skip_generics()
                 item = FnItem(mod, owner, trait, name, p.t, p.i, generic, rel)
+                item.gimpl = gimpl
                 while not (p.at("{") or p.at(";")):
                     if p.peek().k == "eof":
                         raise Refuse(f"{rel}: fn {name}: no body")
@@ -869,7 +1057,11 @@ class Crate:
                     p.skip_balanced()
                     if not cfg and "async" not in quals:
                         self.fns.setdefault((owner, trait, name), []).append(item)
+                        if gimpl is not None:
+                            self.gfns.setdefault((gimpl["base"], gimpl["tname"], name), []).append(item)
                 else:
+                    if not cfg and owner is None and trait is not None:
+                        self.decls.setdefault((trait, name), []).append(item)
                     p.i += 1
                 continue
             if (p.at("const") or p.at("static")) and p.peek(1).k == "id":
@@ -907,9 +1099,13 @@ class Crate:
                 p.i += 1
                 name = p.ident()
                 generic = False
+                gparams = []
                 if p.at("<"):
                     generic = True
-                    p.skip_generics()
+                    gparams = self.generic_params(p)
+                    p.tparams = set(gparams)
+                    while not (p.at("{") or p.at("(") or p.at(";") or p.peek().k == "eof"):
+                        p.i += 1          # a `where` clause
                 info = None
                 if p.at("("):
                     j = p.i
@@ -963,8 +1159,11 @@ class Crate:
                     while not p.at(";"):
                         p.i += 1
                     p.i += 1
-                    info = dict(kind="opaque", why="unit struct")
+                    info = dict(kind="unit")
+                p.tparams = set()
                 if generic:
+                    if info["kind"] == "struct" and not cfg:
+                        self.gadts[name] = dict(tparams=gparams, fields=info["fields"], mod=mod)
                     info = dict(kind="opaque", why="generic struct")
                 if not cfg:
                     info["mod"] = mod
@@ -1011,8 +1210,9 @@ class Crate:
             if p.at("impl") or p.at("trait"):
                 is_trait = p.at("trait")
                 p.i += 1
+                iparams = []
                 if p.at("<"):
-                    p.skip_generics()
+                    iparams = self.generic_params(p)
                 j = p.i
                 while not p.at("{"):
                     if p.peek().k == "eof":
@@ -1030,6 +1230,8 @@ class Crate:
                 own, trt, generic_hdr = None, None, any(t.k == "p" and t.v == "<" for t in hdr)
                 if is_trait:
                     trt = words[0] if words else None
+                    if trt and not cfg:
+                        self.traits.add(trt)
                 elif "for" in words:
                     k = words.index("for")
                     lhs = [w for w in words[:k] if isinstance(w, str) and re.match(r"[A-Za-z_]\w*$", w)]
@@ -1041,13 +1243,33 @@ class Crate:
                 else:
                     ids = [w for w in words if isinstance(w, str) and re.match(r"[A-Za-z_]\w*$", w)]
                     own = ids[-1] if ids and not generic_hdr else "<generic impl>"
+                gi = None
+                if not is_trait and generic_hdr:
+                    gi = self.impl_header(hdr, iparams)
+                    if gi is not None and not gi["tparams"] and not gi["args"] and gi["tname"] and gi["base"] != "Self":
+                        # `impl Mul<i32> for TimeDelta`: only the trait has arguments; filed like `impl Neg for …`
+                        # (two such impls of one trait give two candidates for a name, which is refused)
+                        own, trt, gi = gi["base"], gi["tname"], None
+                if not is_trait and not generic_hdr and not cfg and own and trt:
+                    self.impls.append((trt, own))
                 p.i += 1
                 if cfg:
                     p.i -= 1
                     p.skip_balanced()
                 else:
-                    self.scan_items(p, rel, mod, own, trt)
+                    self.scan_items(p, rel, mod, own, trt, gimpl=gi)
                 continue
+            if p.at("type") and p.peek(1).k == "id" and p.at("=", 2) and owner and not owner.startswith("<") \
+                    and not cfg:
+                save = p.i
+                p.i += 3
+                try:
+                    ty = p.parse_type()
+                    if p.at(";"):
+                        self.assoc[(owner, p.t[save + 1].v)] = ty
+                except Refuse:
+                    pass
+                p.i = save          # skipped below like any other item
             if p.at("mod"):
                 p.i += 1
                 name = p.ident()
@@ -1170,6 +1392,8 @@ def show_type(t):
         return "[" + show_type(t[1]) + "]"
     if t[0] == "tv":
         return "{integer}"
+    if t[0] == "gen":
+        return t[3]
     return t[0] if len(t) == 1 else t[0] + ":" + str(t[1])
 
 
@@ -1186,6 +1410,8 @@ class FnFront:
     # -- type helpers
     def norm(self, t):
         """resolve `Self`, references, arrays-by-reference; reject what is outside the subset"""
+        if t[0] in ("tparam", "assoc", "gen"):
+            t = self.gen.subst_type(t, self.item.tsubst, self.item.owner)
         if t[0] == "self":
             if not self.item.owner or self.item.owner.startswith("<"):
                 raise Refuse("`Self` without a concrete impl type")
@@ -1198,8 +1424,6 @@ class FnFront:
             return ("tuple", tuple(self.norm(x) for x in t[1]))
         if t[0] == "array":
             return ("array", self.norm(t[1]), None)
-        if t[0] == "unk":
-            raise Refuse(f"type `{t[1]}` is outside the subset")
         if t[0] == "adt":
             a = self.crate.adts.get(t[1])
             if a is None:
@@ -1231,6 +1455,15 @@ class FnFront:
                 if fn_ == name:
                     return self.norm(ft)
         raise Refuse(f"no field `{name}` in {t[1]}")
+
+    def generic_by_expectation(self, base, exp, what):
+        """`DateTime { … }` / `DateTime::f(…)` without type arguments: the instantiation is the one of the expected
+        type (the declared result / `let` type the expression flows into; the caller unifies the result with that
+        type afterwards, so a wrong guess is a refusal, never a different reading)"""
+        x = self.T.res(exp)
+        if x is not None and x[0] == "adt" and self.crate.adts.get(x[1], {}).get("gbase") == base:
+            return x[1]
+        raise Refuse(f"{what} of the generic type `{base}` where the instantiation is not given by the expected type")
 
     # -- constants
     def find_const(self, segs):
@@ -1342,6 +1575,14 @@ class FnFront:
                             e.res = ("variant", d)
                             return ("adt", en)
                     raise Refuse(f"unknown variant {en}::{segs[-1]}")
+            if len(segs) == 1 and self.crate.adts.get(segs[0], {}).get("kind") == "unit":
+                e.res = ("unit",)
+                return ("adt", segs[0])
+            if len(segs) == 1:
+                ca = self.gen.const_array(self.item.mod, segs[0])
+                if ca is not None:
+                    e.res = ("carray", ca[1])
+                    return ("array", ca[0], len(ca[1]))
             if segs[-1] in EXTRACTED_TABLES and len(segs) == 1:
                 c = self.gen.const_decl(self.item.mod, segs[-1])
                 if c is not None:
@@ -1431,6 +1672,8 @@ class FnFront:
             return self.field_type(self.infer(e.e, env), e.name)
         if k == "slit":
             name = self.item.owner if e.path[-1] == "Self" else e.path[-1]
+            if name in self.crate.gadts:
+                name = self.generic_by_expectation(name, exp, "struct literal")
             t = self.norm(("adt", name))
             a = self.adt(t)
             if a["kind"] != "struct":
@@ -1530,6 +1773,13 @@ class FnFront:
                 v = self.gen.ceval(s.e, self.item.mod, self.item.owner, self, dt)
                 self.gen.check_const(v, dt, s.name)
                 self.lconsts[s.name] = (dt, v)
+            elif s.k == "use":
+                # importing a name that is nothing of the translated files (an external trait such as
+                # `num_traits::FromPrimitive`) cannot change what a path of this body refers to here
+                nm = s.name
+                if nm in self.crate.adts or nm in self.crate.gadts or any(k_[2] == nm for k_ in self.crate.consts) \
+                        or any(k_[2] == nm and k_[0] is None and k_[1] is None for k_ in self.crate.fns) or nm in env:
+                    raise Refuse(f"`use …::{nm}` inside a function body shadows a translated item")
             elif s.k == "estmt":
                 t = self.infer(s.e, env)
                 if T.res(t) == NEVER:
@@ -1643,10 +1893,52 @@ class FnFront:
             owner = self.item.owner if segs[-2] == "Self" else segs[-2]
             if owner in INT_TYPES or owner in NONZERO:
                 raise Refuse(f"`{owner}::{name}` is outside the subset")
-            item = self.gen.resolve_fn(owner, name, self.item)
+            if owner in self.crate.traits and owner not in self.crate.adts:
+                return self.infer_trait_call(e, env, exp, owner, name)
+            if owner in self.item.tsubst:                      # `Tz::from_offset(…)` read at the instantiation
+                if self.item.tsubst[owner][0] != "adt":
+                    raise Refuse(f"`{owner}::{name}` on a type parameter bound to a non-struct type")
+                owner = self.item.tsubst[owner][1]
+                item = self.gen.resolve_fn(owner, name, self.item, via_param=True)
+            else:
+                if owner in self.crate.gadts:
+                    owner = self.generic_by_expectation(owner, exp, f"call `{owner}::{name}`")
+                item = self.gen.resolve_fn(owner, name, self.item)
         info = self.gen.fn_info(item)
         if len(info.params) != len(e.args):
             raise Refuse(f"call of {item.rust_path()}: argument count")
+        for (pn, pt), a_ in zip(info.params, e.args):
+            T.unify(self.infer(a_, env, pt), pt, f"(argument `{pn}` of {item.rust_path()})")
+        e.res = ("fn", info)
+        return info.ret
+
+    def infer_trait_call(self, e, env, exp, trait, name):
+        """`Trait::f(args)`: the impl is chosen by `Self`, which is read off the first argument when `f` has a
+        receiver and off the expected type when `f` returns `Self` (`TimeZone::from_offset(&off)` flowing into a
+        value of type `Tz`); anything else is refused"""
+        T = self.T
+        decl = self.crate.fns.get((None, trait, name), []) + self.crate.decls.get((trait, name), [])
+        if len(decl) != 1:
+            raise Refuse(f"`{trait}::{name}`: no unique declaration in the trait")
+        d = FnItem(decl[0].mod, None, trait, name, decl[0].toks, decl[0].sig_i, decl[0].generic, decl[0].rel)
+        params, has_self, ret = d.parse_sig()
+        selft = None
+        if has_self:
+            if not e.args:
+                raise Refuse(f"`{trait}::{name}` without a receiver argument")
+            selft = T.res(self.infer(e.args[0], env))
+        elif ret == ("self",):
+            selft = T.res(exp)
+        if selft is None or selft[0] != "adt":
+            raise Refuse(f"`{trait}::{name}`: the implementing type is not evident from the call")
+        item = self.gen.resolve_fn(selft[1], name, self.item, via_param=True)
+        if item.trait != trait:
+            raise Refuse(f"`{trait}::{name}` at {selft[1]} resolves to a function that is not the trait's")
+        info = self.gen.fn_info(item)
+        if len(info.params) != len(e.args):
+            raise Refuse(f"call of {item.rust_path()}: argument count")
+        if info.mut_self:
+            raise Refuse(f"call of {item.rust_path()}, which takes `&mut self`")
         for (pn, pt), a_ in zip(info.params, e.args):
             T.unify(self.infer(a_, env, pt), pt, f"(argument `{pn}` of {item.rust_path()})")
         e.res = ("fn", info)
@@ -1679,10 +1971,25 @@ class FnFront:
                 return tr_
             raise Refuse(f"integer method `{name}` is outside the subset")
         if tr_[0] == "opt":
+            if name in ("map", "and_then") and len(e.args) == 1 and e.args[0].k == "closure":
+                c = e.args[0]
+                if len(c.params) != 1:
+                    raise Refuse(f"Option::{name} with a closure that does not take one argument")
+                if has_escape(c.body):
+                    raise Refuse("`return` / `?` inside a closure")
+                # exactly the definition of Option::map / Option::and_then, with the closure body in place of the call
+                some = N("call", path=["Some"], args=[c.body]) if name == "map" else c.body
+                inner = N("ptstruct", path=["Some"], pats=[c.params[0]])
+                e.k, e.e = "match", e.recv
+                e.arms = [(inner, None, some), (N("ppath", segs=["None"]), None, N("path", segs=["None"]))]
+                return self._infer(e, env, exp)
             if name in ("is_some", "is_none") and not e.args:
                 e.res = ("isopt", name == "is_some")
                 return BOOL
             if name == "unwrap" and not e.args:
+                e.res = ("unwrap",)
+                return tr_[1]
+            if name == "expect" and len(e.args) == 1 and e.args[0].k == "str":
                 e.res = ("unwrap",)
                 return tr_[1]
             if name == "unwrap_or" and len(e.args) == 1:
@@ -1695,6 +2002,8 @@ class FnFront:
             info = self.gen.fn_info(item)
             if not info.has_self:
                 raise Refuse(f"{item.rust_path()} called as a method but has no self")
+            if info.mut_self:
+                raise Refuse(f"call of {item.rust_path()}, which takes `&mut self`")
             if len(info.params) != len(e.args) + 1:
                 raise Refuse(f"call of {item.rust_path()}: argument count")
             for (pn, pt), a_ in zip(info.params[1:], e.args):
@@ -1831,7 +2140,10 @@ class FnTrans:
         return "none" if self.pure else ".ok none"
 
     def lean_type(self, t):
-        return self.gen.lean_type(t)
+        return qualify(self.gen.lean_type(t), self.used, self.gen.mods)
+
+    def mk(self, name):
+        return qualify(self.gen.struct_name(name), self.used, self.gen.mods) + ".mk"
 
     def is_struct(self, t):
         return t is not None and t[0] == "adt" and self.gen.repr_kind(t) == "struct"
@@ -2031,6 +2343,10 @@ class FnTrans:
                 return k(V(env[e.segs[0]][0]))
             if r[0] == "none":
                 return k(V("none"))
+            if r[0] == "unit":
+                return k(V("()"))
+            if r[0] == "carray":
+                return k(V("([" + ", ".join(lit_text(x) for x in r[1]) + "] : List Int)", 100))
             if r[0] == "variant":
                 return k(vlit(r[1]))
             if r[0] == "const":
@@ -2170,7 +2486,7 @@ class FnTrans:
                                 else V(f"{b.emb(100)}.{f}", 100)
                 elif len(order) == 1:
                     return k(vs[0])
-                return k(V(f"{self.gen.struct_name(t[1])}.mk " + " ".join(by[f].emb(100) for f in order), 90))
+                return k(V(f"{self.mk(t[1])} " + " ".join(by[f].emb(100) for f in order), 90))
             return self.tr_list([fe for _, fe in e.fields] + ([e.base] if e.base is not None else []), env, ks)
         if kd == "block":
             return self.tr_block(e, env, k, hint)
@@ -2229,7 +2545,7 @@ class FnTrans:
             x = d[f]
             parts.append(lit_text(x) if isinstance(x, int) else
                          self.const_struct(x, self.gen.norm_type(ft, t[1])).emb(100))
-        return V(f"{self.gen.struct_name(t[1])}.mk " + " ".join(parts), 90, cval=d)
+        return V(f"{self.mk(t[1])} " + " ".join(parts), 90, cval=d)
 
     def match_opt(self, v, name, ksome, none_code):
         return self.match_opt_full(v, name, ksome, none_code)
@@ -2584,7 +2900,7 @@ class FnTrans:
             if s.pat.k == "pbind":
                 h = self.declare(s.pat.name, env)[0]
             return self.tr(s.init, env, lambda v: self.at_depth(depth, lambda: self.bind_pat(s.pat, v, t, env, rest)), h)
-        if s.k == "lconst":
+        if s.k in ("lconst", "use"):
             return rest(env)
         if s.k == "estmt":
             return self.tr(s.e, env, lambda _v: rest(env))
@@ -2613,6 +2929,7 @@ class FnInfo:
         self.lean = self.text = self.ret = self.params = None
         self.impure = False
         self.has_self = False
+        self.mut_self = False
 
 
 PRIM_CK = {"i32": "ckI32", "i64": "ckI64", "u32": "ckU32", "u64": "ckU64"}
@@ -2626,7 +2943,9 @@ class Gen:
         self.infos = {}        # id(item) -> FnInfo | Refuse | "busy"
         self.order = []        # FnInfo in dependency order
         self.structs = []      # names of emitted structures
+        self.struct_adt = {}   # emitted structure name -> key in crate.adts
         self.cache = {}
+        self.mods = sorted(set(crate.files.values()))
 
     # -- names of the run-time vocabulary
     def ck_name(self, t):
@@ -2651,15 +2970,119 @@ class Gen:
             return "enum"
         if a["kind"] == "struct":
             return "single" if len(a["fields"]) == 1 else "struct"
+        if a["kind"] == "unit":
+            return "unit"
         raise Refuse(f"type {t[1]} is outside the subset")
 
     def struct_name(self, name):
         a = self.crate.adts[name]
-        full = f"{a['mod']}.{name}"
+        full = f"{a['mod']}.{lean_ident(name)}"
         if full not in self.structs:
             self.structs.append(full)
+            self.struct_adt[full] = name
             a["emit_index"] = len(self.order)
         return full
+
+    # -- generic impls read at a concrete instantiation
+    def subst_type(self, t, subst, owner):
+        """a parsed type with the type parameters (`Tz`), `Self`, associated types (`Tz::Offset`: the `type Offset = …`
+        item of the impl for the concrete type) and generic structs (`DateTime<Tz>`) resolved"""
+        k = t[0]
+        if k == "tparam":
+            if t[1] not in subst:
+                raise Refuse(f"type parameter `{t[1]}` is not bound to a concrete type")
+            return subst[t[1]]
+        if k == "self":
+            if not owner or owner.startswith("<"):
+                raise Refuse("`Self` without a concrete impl type")
+            return ("adt", owner)
+        if k == "assoc":
+            b = self.subst_type(t[1], subst, owner)
+            if b[0] != "adt" or (b[1], t[2]) not in self.crate.assoc:
+                raise Refuse(f"associated type `{show_type(b)}::{t[2]}` is not defined in the translated files")
+            return self.subst_type(self.crate.assoc[(b[1], t[2])], {}, b[1])
+        if k == "gen":
+            return self.instantiate_adt(t[1], [self.subst_type(a, subst, owner) for a in t[2]], t[3])
+        if k == "opt":
+            return ("opt", self.subst_type(t[1], subst, owner))
+        if k == "tuple":
+            return ("tuple", tuple(self.subst_type(x, subst, owner) for x in t[1]))
+        if k == "array":
+            return ("array", self.subst_type(t[1], subst, owner), t[2])
+        return t
+
+    def instantiate_adt(self, name, args, txt=None):
+        """`Name<args>` for a generic struct of the translated files: a struct of its own (key `Name<A, …>`, Lean
+        name `Name_A_…`) whose field types are the declared ones with the parameters replaced"""
+        g = self.crate.gadts.get(name)
+        if g is None or len(g["tparams"]) != len(args):
+            raise Refuse(f"type `{txt or name + '<…>'}` is outside the subset")
+        for a in args:
+            if a[0] != "adt":
+                raise Refuse(f"type `{txt or name + '<…>'}`: a type argument that is not a named type")
+        key = name + "<" + ", ".join(a[1] for a in args) + ">"
+        if key not in self.crate.adts:
+            self.crate.adts[key] = dict(kind="opaque", why="recursive instantiation", mod=g["mod"])
+            try:
+                sub = dict(zip(g["tparams"], args))
+                fields = [(f, self.subst_type(ft, sub, None)) for f, ft in g["fields"]]
+            except Refuse:
+                del self.crate.adts[key]
+                raise
+            self.crate.adts[key] = dict(kind="struct", fields=fields, mod=g["mod"], gbase=name, gargs=tuple(args))
+        return ("adt", key)
+
+    @staticmethod
+    def match_impl(gimpl, gargs):
+        """does `impl<P…> Base<args>` cover `Base<gargs>`?  -> the binding of the impl's parameters, or None"""
+        if gimpl is None or len(gimpl["args"]) != len(gargs):
+            return None
+        bind = {}
+        for ia, ga in zip(gimpl["args"], gargs):
+            if ia[0] == "tparam":
+                if bind.get(ia[1], ga) != ga:
+                    return None
+                bind[ia[1]] = ga
+            elif ia != ga:
+                return None
+        if set(gimpl["tparams"]) - set(bind):
+            return None
+        return bind
+
+    def resolve_gfn(self, owner, name):
+        """function `name` of the instantiated generic struct `owner`: the impls `impl<…> Base<…>` whose header
+        covers the instantiation; inherent impls before trait impls (Rust's method lookup order)"""
+        a = self.crate.adts[owner]
+        hits = []
+        for (b, tname, n), items in self.crate.gfns.items():
+            if b == a["gbase"] and n == name:
+                for it in items:
+                    bind = self.match_impl(it.gimpl, a["gargs"])
+                    if bind is not None:
+                        hits.append((it, bind, tname))
+        pick = [h for h in hits if h[2] is None] or hits
+        if not pick:
+            raise NotFound(f"`{owner}::{name}` is not defined in the translated files")
+        if len(pick) > 1:
+            raise Refuse(f"`{owner}::{name}` has several definitions (cfg variants / overlapping impls)")
+        it, bind, tname = pick[0]
+        key = ("inst", id(it), owner)
+        if key not in self.cache:
+            ni = FnItem(it.mod, owner, tname, it.name, it.toks, it.sig_i, it.generic, it.rel)
+            ni.tsubst = bind
+            self.cache[key] = ni
+        return self.cache[key]
+
+    def param_images(self, ctx):
+        """the concrete types a value of a parametric type (`Tz`, `Tz::Offset`, `Self` of a trait default method)
+        can have inside `ctx`"""
+        ts = {t[1] for t in getattr(ctx, "tsubst", {}).values() if t[0] == "adt"}
+        if getattr(ctx, "default_of", None):
+            ts.add(ctx.owner)
+        for (o, _n), ty in list(self.crate.assoc.items()):
+            if o in ts and ty[0] == "adt":
+                ts.add(ty[1])
+        return ts
 
     def norm_type(self, t, owner):
         if t[0] == "self":
@@ -2694,6 +3117,8 @@ class Gen:
             a = self.crate.adts[t[1]]
             if kind == "enum":
                 return "Int"
+            if kind == "unit":
+                return "Unit"
             if kind == "newtype":
                 return self.lean_type(self.norm_type(a["field"], t[1]))
             if kind == "single":
@@ -2728,6 +3153,26 @@ class Gen:
             raise Refuse(f"constant `{name}` is defined in several modules and not in this one")
         return None
 
+    def const_array(self, mod, name):
+        """a module-level `const NAME: [intN; n] = [e, …];` of integer constant expressions -> (element type,
+        values) (each value checked against the element type, the length against `n` when it is a literal); None
+        if `name` is not such a constant.  The array is written out as a list literal where it is used."""
+        if name in EXTRACTED_TABLES:
+            return None
+        try:
+            d = self.const_decl(mod, name)
+        except Refuse:
+            return None
+        if d is None or d[1] is None or d[0][0] != "array" or d[0][1][0] != "int" or d[1].k != "array":
+            return None
+        ty, e, rel, dmod, downer = d
+        vals = [self.ceval(x, dmod, None, None, ty[1]) for x in e.es]
+        for v in vals:
+            self.check_const(v, ty[1], name)
+        if ty[2] is not None and ty[2].k == "lit" and ty[2].v != len(vals):
+            raise Refuse(f"constant array `{name}`: length differs from the declared one")
+        return (ty[1], vals)
+
     def const_lookup(self, mod, owner, name, front=None):
         d = self.const_decl(mod, name, owner)
         if d is None:
@@ -2741,7 +3186,7 @@ class Gen:
         self.cache[key] = "busy"
         try:
             ty = self.norm_type(ty, downer)
-            if ty[0] == "array" or ty[0] == "unk":
+            if ty[0] in ("array", "gen", "tparam", "assoc"):
                 raise Refuse(f"constant `{name}` has a type outside the subset")
             if e is None:
                 raise Refuse(f"constant `{name}`: initialiser outside the subset")
@@ -2883,7 +3328,7 @@ class Gen:
     def self_type(self, item):
         return ("adt", item.owner)
 
-    def resolve_fn(self, owner, name, ctx, method=False):
+    def resolve_fn(self, owner, name, ctx, method=False, via_param=False):
         fns = self.crate.fns
 
         def one(cands, what):
@@ -2900,6 +3345,8 @@ class Gen:
             raise Refuse(f"function `{name}` is not defined in the translated files")
         if owner not in self.crate.adts:
             raise Refuse(f"`{owner}::{name}`: `{owner}` is not a type of the translated files")
+        if "gbase" in self.crate.adts[owner]:
+            return self.resolve_gfn(owner, name)
         dflt = getattr(ctx, "default_of", None)
         if dflt and owner == ctx.owner:          # inside a trait's default method: trait methods first
             c = fns.get((owner, dflt, name), [])
@@ -2909,12 +3356,21 @@ class Gen:
             if c:
                 return self.specialise(one(c, "trait default method"), owner, dflt)
         c = fns.get((owner, None, name), [])
+        ct = [x for (o, t, n), xs in fns.items() if o == owner and n == name and t is not None for x in xs]
+        cd = [(x, t) for (t, o) in self.crate.impls if o == owner for x in fns.get((None, t, name), [])
+              if not any(y.trait == t for y in ct)]
+        if c and (ct or cd) and (via_param or owner in self.param_images(ctx)):
+            # inside generic code a value of a parametric type only has the methods of its trait bounds, while at
+            # the concrete type an inherent method of the same name would win: not decided here
+            raise Refuse(f"`{owner}::{name}` is both an inherent and a trait method, called from generic code")
         if c:
             return one(c, "method")
-        c = [x for (o, t, n), xs in fns.items() if o == owner and n == name and t is not None for x in xs]
-        if c:
-            return one(c, "trait method")
-        raise Refuse(f"`{owner}::{name}` is not defined in the translated files")
+        if ct:
+            return one(ct, "trait method")
+        if cd:
+            x, t = one(cd, "trait default method")
+            return self.specialise(x, owner, t)
+        raise NotFound(f"`{owner}::{name}` is not defined in the translated files")
 
     def specialise(self, item, owner, trait):
         """the default method `item` of `trait`, read with Self = owner"""
@@ -2928,10 +3384,14 @@ class Gen:
     def lean_fn_name(self, item):
         parts = [item.mod]
         if item.owner:
-            parts.append(item.owner)
+            parts.append(lean_ident(item.owner))
         if item.trait:
             parts.append(item.trait)
-        parts.append(item.name)
+        a = self.crate.adts.get(item.owner) if item.owner and not item.trait else None
+        if a is not None and a["kind"] == "struct" and len(a["fields"]) > 1 and item.name in [f for f, _ in a["fields"]]:
+            parts.append(item.name + "_fn")      # `T.f` is the projection of the generated structure
+        else:
+            parts.append(item.name)
         return ".".join(parts)
 
     def fn_info(self, item):
@@ -2954,6 +3414,7 @@ class Gen:
             raise self.infos[key]
         self.infos[key] = info
         self.order.append(info)
+        info.mut_self = item.mut_self
         return info
 
     def translate(self, item):
@@ -2972,8 +3433,8 @@ class Gen:
         info.params = [(n, front.T.final(t)) for n, t in front.params]
         info.ret = rt
         info.lean = self.lean_fn_name(item)
-        rt_lean = self.lean_type(rt)
-        ptypes = [self.lean_type(t) for _, t in info.params]
+        rt_lean = qualify(self.lean_type(rt), item.idents, self.mods)
+        ptypes = [qualify(self.lean_type(t), item.idents, self.mods) for _, t in info.params]
         t1 = FnTrans(self, front, body, pure=False)
         code = t1.run()
         if not t1.impure:
@@ -3000,11 +3461,22 @@ FILES = [
     ("src/offset/fixed.rs", "offset_fixed"),
     ("src/naive/mod.rs", "naive"),
     ("src/naive/datetime/mod.rs", "naive_datetime"),
+    ("src/offset/utc.rs", "offset_utc"),
+    ("src/offset/mod.rs", "offset"),
+    ("src/datetime/mod.rs", "datetime"),
+    ("src/offset/local/tz_info/mod.rs", "tz_info"),
+    ("src/offset/local/tz_info/rule.rs", "tz_info_rule"),
 ]
 
 # (file, impl type | None, function)                      an inherent / free function
 # (file, impl type, function, trait)                      a method of `impl trait for type`
 # (file, None, function, trait, Self type)                a trait default method read at the given Self
+# (file, "Base<Arg>", function)                           a function of a generic impl (`impl<Tz: TimeZone> DateTime<Tz>`,
+#                                                         `impl DateTime<Utc>`) read at the instantiation `Base<Arg>`
+DT_BOTH = ["timestamp", "timestamp_millis", "timestamp_micros", "timestamp_nanos_opt", "timestamp_subsec_millis",
+           "timestamp_subsec_micros", "timestamp_subsec_nanos", "naive_utc", "naive_local", "overflowing_naive_local",
+           "timezone", "to_utc", "fixed_offset", "checked_add_signed", "checked_sub_signed", "checked_add_months",
+           "checked_sub_months", "checked_add_days", "checked_sub_days", "with_time"]
 TARGETS = (
     [("src/naive/internals.rs", "YearFlags", f) for f in
      ["from_year_mod_400", "from_year", "ndays", "isoweek_delta", "nisoweeks"]]
@@ -3050,6 +3522,23 @@ TARGETS = (
        ["checked_add_signed", "checked_sub_signed", "checked_add_offset", "checked_sub_offset",
         "overflowing_add_offset", "overflowing_sub_offset", "signed_duration_since", "checked_add_months",
         "checked_sub_months", "checked_add_days", "checked_sub_days"]]
+    + [("src/naive/datetime/mod.rs", "NaiveDateTime", "and_utc")]
+    + [("src/datetime/mod.rs", "DateTime<Utc>", f) for f in
+       ["from_timestamp", "from_timestamp_millis", "from_timestamp_micros", "from_timestamp_nanos"]]
+    + [("src/datetime/mod.rs", inst, f) for inst in ["DateTime<Utc>", "DateTime<FixedOffset>"] for f in DT_BOTH]
+    + [("src/offset/mod.rs", None, "from_utc_datetime", "TimeZone", z) for z in ["Utc", "FixedOffset"]]
+    + [("src/offset/local/tz_info/rule.rs", None, f) for f in ["is_leap_year", "days_since_unix_epoch"]]
+    + [("src/naive/date/mod.rs", "NaiveDate", "from_isoywd_opt")]
+    + [("src/naive/date/mod.rs", "NaiveDate", f, "Datelike") for f in
+       ["iso_week", "month0", "day0", "ordinal0", "year", "month", "day", "ordinal", "weekday"]]
+    + [("src/naive/isoweek.rs", "IsoWeek", f) for f in ["year", "week", "week0"]]
+    + [("src/traits.rs", None, f, "Datelike", "NaiveDate") for f in ["year_ce", "quarter", "num_days_in_month"]]
+    + [("src/month.rs", "Month", "num_days")]
+    + [("src/naive/mod.rs", "NaiveWeek", f) for f in ["checked_days", "days"]]
+    + [("src/naive/datetime/mod.rs", "NaiveDateTime", f, "Datelike") for f in
+       ["with_year", "with_month", "with_month0", "with_day", "with_day0", "with_ordinal", "with_ordinal0"]]
+    + [("src/naive/datetime/mod.rs", "NaiveDateTime", f, "Timelike") for f in
+       ["with_hour", "with_minute", "with_second", "with_nanosecond"]]
 )
 
 
@@ -3076,7 +3565,17 @@ def build(read):
             missing.append((label, problems[rel]))
             continue
         try:
-            if len(tgt) > 4:
+            if owner and "<" in owner:
+                base, args = owner[:-1].split("<")
+                if base not in crate.gadts:
+                    missing.append((label, f"generic struct `{base}` not found"))
+                    continue
+                try:
+                    ty = gen.instantiate_adt(base, [("adt", a.strip()) for a in args.split(",")])
+                    cands = [x for x in [gen.resolve_fn(ty[1], name, None)] if x.mod == mod]
+                except NotFound:
+                    cands = []
+            elif len(tgt) > 4:
                 cands = [x for x in crate.fns.get((None, tgt[3], name), []) if x.mod == mod]
                 cands = [gen.specialise(x, tgt[4], tgt[3]) for x in cands]
             elif len(tgt) == 4:
@@ -3098,8 +3597,8 @@ def build(read):
            "import Chrono.Prim", "import Chrono.GenRt", "import Chrono.Extracted.Tables", "",
            "namespace Chrono.Gen", "open Chrono", ""]
     for full in gen.structs:
-        a = crate.adts[full.split(".")[-1]]
-        out.append(f"/-- `struct {full.split('.')[-1]}` -/")
+        a = crate.adts[gen.struct_adt[full]]
+        out.append(f"/-- `struct {gen.struct_adt[full]}` -/")
         out.append(f"structure {full} where")
         for f, ft in a["lean_fields"]:
             out.append(f"  {f} : {ft}")
